@@ -30,6 +30,7 @@ fn main() {
         "parsers" => vh::parser_drive::run(&opts),
         "stream" => vh::stream::run(&opts),
         "wstream" => vh::wstream::run(&opts),
+        "bigreq" => vh::stream::run_bigreq(&opts),
         "roundtrip" => vh::roundtrip::run(&opts),
         "replay-reader" => vh::replay_reader::run(&opts),
         "replay-writer" => vh::replay_writer::run(&opts),
